@@ -1180,3 +1180,7 @@ Example ex_f1001_witness :
       (timer_cycles 10 (mkcfg (Some 1000) false (Some 4000) None None (Some 1000) 60000 ETemporary) (mkenv 0 [] None 100000 []) 0 wit_script_quick_ok) =
   [(4000, true, false); (5125, true, false); (6250, true, false)].
 Proof. vm_compute. reflexivity. Qed.
+
+(* ------------------------------------------------------------------ which events reset the idle time *)
+Lemma reset_flag_rule hb ch : reset_flag hb ch = true <-> (hb = false \/ ch = true).
+Proof. unfold reset_flag. destruct hb, ch; cbn; intuition congruence. Qed.
